@@ -651,6 +651,10 @@ func (scDemux) Run(t *testing.T, prop string, seed uint64, cfgRaw json.RawMessag
 			{Destination: "\x0a\x01\x00\x00", Mask: "\xff\xff\x00\x00", NIC: 2},
 			{Destination: "\x00\x00\x00\x00", Mask: "\x00\x00\x00\x00", NIC: 1},
 		})
+		if cfg.Promisc || cfg.Subnet {
+			// NIC 1 then answers for addresses beyond its assigned ones by design: its source addresses are not judged
+			w.S.Link.Addrs = nil
+		}
 		if cfg.Promisc {
 			must(s.SetPromiscuousMode(1, true), "promiscuous")
 		}
